@@ -35,7 +35,7 @@ type st = { rng : Rng.t; mutable next : int; level : int; mutable fuelv : int;
             mutable clf : int }             (* closures still to be created (level 4) *)
 
 (* level 7 = level 4 + one-dimensional int arrays *)
-let l4 st = st.level = 4 || st.level = 7
+let l4 st = st.level = 4 || st.level >= 7      (* level 8 = level 7 + records *)
 
 let ei k = EInt (z_of_int k)
 let ev v = EVar (n_of_int v.n)
@@ -66,6 +66,7 @@ let rec kind env e =
   | EBlock items -> kind_items env items
   | EAssign (_, r) -> kind env r
   | EIndex (a, _) -> kind env a
+  | EField (a, _, _) -> kind env a
   | EWhile _ | EDoWhile _ | EPrint _ | ECall _ -> KC
   | _ -> KT
 and kind_items env = function
@@ -80,7 +81,7 @@ and kind_items env = function
 let shape st e =
   if not (l4 st) || int_shaped e then e
   else match e with
-    | EVar _ | ECall _ | ECond _ | EBlock _ | EIndex _ -> EBin (Add, e, EInt Z0)
+    | EVar _ | ECall _ | ECond _ | EBlock _ | EIndex _ | EField _ -> EBin (Add, e, EInt Z0)
     | _ -> e
 
 let shape_bool st e =
@@ -118,6 +119,14 @@ let gen_index st (v : vi) (env : vi list) : expr =
 
 let inb_index st (v : vi) = ei (Rng.int st.rng v.cost)
 
+(* level 8: two record types with int fields; a variable bound to a record has cost = number of fields,
+   bound to nil: cost = - number of fields *)
+let rec_types = [ (1, 2); (2, 3) ]
+let recs_of (env : vi list) = List.filter (fun (v : vi) -> match v.t with TRec _ -> true | _ -> false) env
+let rec_id (v : vi) = match v.t with TRec r -> r | _ -> assert false
+let gen_field st (v : vi) : expr =
+  let nf = abs v.cost in EField (ev v, rec_id v, nat_of_int (Rng.int st.rng nf))
+
 let rec gen_int st env d : expr =
   let vs = vars_of env TInt in
   let leaf () =
@@ -151,11 +160,15 @@ let rec gen_int st env d : expr =
       (if List.exists (fun v -> v.var) vs then 6 else 0), (fun () ->
           let v = Rng.pick st.rng (List.filter (fun v -> v.var) vs) in EAssign (ev v, shape st (sub ())));
       (if st.level >= 2 then 4 else 0), (fun () -> EPrint (sub ()));
-      (if st.level = 7 && arrs_of env <> [] then 22 else 0), (fun () ->
+      (if st.level >= 7 && arrs_of env <> [] then 22 else 0), (fun () ->
           let v = Rng.pick st.rng (arrs_of env) in EIndex (ev v, gen_index st v env));
-      (if st.level = 7 && List.exists (fun v -> v.var) (arrs_of env) then 7 else 0), (fun () ->
+      (if st.level >= 7 && List.exists (fun v -> v.var) (arrs_of env) then 7 else 0), (fun () ->
           let v = Rng.pick st.rng (List.filter (fun v -> v.var) (arrs_of env)) in
           EAssign (EIndex (ev v, inb_index st v), shape st (sub ())));
+      (if st.level >= 8 && recs_of env <> [] then 18 else 0), (fun () -> gen_field st (Rng.pick st.rng (recs_of env)));
+      (if st.level >= 8 && List.exists (fun (v : vi) -> v.var && v.cost > 0) (recs_of env) then 6 else 0), (fun () ->
+          let v = Rng.pick st.rng (List.filter (fun (v : vi) -> v.var && v.cost > 0) (recs_of env)) in
+          EAssign (gen_field st v, shape st (sub ())));
       (if st.level >= 2 && d >= 2 && st.fuelv > 0 then 5 else 0), (fun () -> gen_loop st env (d - 1));
       (if callable st <> [] then 16 else 0), (fun () -> gen_call st env (d - 1));
       (if l4 st && fcands st env TInt <> [] then 24 else 0), (fun () -> gen_fcall st env (d - 1) TInt);
@@ -476,14 +489,26 @@ and gen_block st env t d n : item list =
               else gen_ty st env d (if Rng.pct st.rng 20 then TBool else TInt) in
             IExpr e :: go env bound (i + 1));
         (if st.level >= 2 then 8 else 0), (fun () -> IExpr (EPrint (gen_int st env d)) :: go env bound (i + 1));
-        (if st.level = 7 then 16 else 0), (fun () ->
+        (if st.level >= 7 then 16 else 0), (fun () ->
             let n = Rng.range st.rng 1 4 in
             let es = List.init n (fun _ -> shape st (gen_int st env (min d 1))) in
             let x = fresh st in
             let isvar = Rng.pct st.rng 70 in
             let it = if isvar then IVar (n_of_int x, EArrLit (es, TInt)) else ILet (n_of_int x, EArrLit (es, TInt)) in
             it :: go ({ n = x; t = TArr TInt; var = isvar; ctr = false; cost = n } :: env) (x :: bound) (i + 1));
-        (if st.level = 7 && List.exists (fun v -> v.var) (arrs_of env) then 10 else 0), (fun () ->
+        (if st.level >= 8 then 14 else 0), (fun () ->
+            let (r, nf) = Rng.pick st.rng rec_types in
+            let x = fresh st in
+            let isvar = Rng.pct st.rng 70 in
+            let isnil = Rng.pct st.rng 8 in
+            let e = if isnil then ERecNil (n_of_int r)
+              else ERecNew (n_of_int r, List.init nf (fun _ -> shape st (gen_int st env (min d 1)))) in
+            let it = if isvar then IVar (n_of_int x, e) else ILet (n_of_int x, e) in
+            it :: go ({ n = x; t = TRec (n_of_int r); var = isvar; ctr = false; cost = (if isnil then - nf else nf) } :: env) (x :: bound) (i + 1));
+        (if st.level >= 8 && List.exists (fun (v : vi) -> v.var && v.cost > 0) (recs_of env) then 8 else 0), (fun () ->
+            let v = Rng.pick st.rng (List.filter (fun (v : vi) -> v.var && v.cost > 0) (recs_of env)) in
+            IExpr (EAssign (gen_field st v, shape st (gen_int st env d))) :: go env bound (i + 1));
+        (if st.level >= 7 && List.exists (fun v -> v.var) (arrs_of env) then 10 else 0), (fun () ->
             let v = Rng.pick st.rng (List.filter (fun v -> v.var) (arrs_of env)) in
             IExpr (EAssign (EIndex (ev v, gen_index st v env), shape st (gen_int st env d))) :: go env bound (i + 1));
         (if l4 st && (st.clf > 0 || List.exists (fun v -> is_fun_ty v.t) env) then 12 else 0), (fun () ->
@@ -537,7 +562,7 @@ let gen_catches st params : (exn * item list) list * item list option =
     let body () = gen_block st env TInt (Rng.range st.rng 1 2) (Rng.range st.rng 0 2) in
     let nnamed = Rng.range st.rng 0 2 in
     let named = List.init nnamed (fun _ ->
-        let ex = Rng.weighted st.rng (if st.level = 7 then [45, ExDivision; 35, ExIndexOob; 10, ExNil; 10, ExArrSize]
+        let ex = Rng.weighted st.rng (if st.level >= 7 then [45, ExDivision; 30, ExIndexOob; 20, ExNil; 5, ExArrSize]
                                       else [70, ExDivision; 10, ExIndexOob; 10, ExNil; 10, ExArrSize]) in
         (ex, body ())) in
     let call = if nnamed = 0 || Rng.pct st.rng 40 then Some (body ()) else None in
@@ -659,4 +684,5 @@ let gen_program st : program * int =
   st.fuelv <- 3;
   st.clf <- (if l4 st then Rng.range st.rng 2 7 else 0);
   let mainfd, np = gen_main st in
-  ({ p_recs = []; p_funcs = fds @ [mainfd]; p_main = n_of_int 0 }, np)
+  ({ p_recs = (if st.level >= 8 then List.map (fun (r, nf) -> (n_of_int r, List.init nf (fun _ -> TInt))) rec_types else []);
+     p_funcs = fds @ [mainfd]; p_main = n_of_int 0 }, np)
